@@ -119,7 +119,9 @@ OPT_POOL = [[("force", "f"), ("level", "l"), ("pattern", "p")],
 SHORT = ["Short text", "Do it", "The name of the thing", "x"]
 WORDS = ["the", "server", "is", "started", "with", "every", "configured", "plugin", "and", "re-use", "of", "a", "long-running",
          "session", "unless", "told", "otherwise;", "see", "(the", "manual)", "for", "details.", "Values", "are", "checked",
-         "first,", "then", "applied", "in", "order", "été", "42", "items", "well-known"]
+         "first,", "then", "applied", "in", "order", "été", "42", "items", "well-known",
+         # tokens without a break point that are longer than most text columns (a URL, a path): the wrapper must cut them
+         "https://example.org/docs/configuration/reference.html", "/usr/local/share/mytool/plugins/enabled.d"]
 
 
 def _long_text(rng, lines_ok=True):
@@ -773,9 +775,9 @@ def oracle(case, obs):
     runs = obs["runs"]
     for k in range(0, len(runs), 3):
         (t0, a), (t1, b), (t2, c) = runs[k], runs[k + 1], runs[k + 2]
-        if not _path_ok(tree["commands"], t0[1:]):
+        if t0[1:] != ["help"] and not _path_ok(tree["commands"], t0[1:]):
             # the tokens do not name a command path (an alias shadowed by a sibling's name): the statement speaks about
-            # `help <path>` for command paths only
+            # `help <path>` for command paths only (the built-in `help` command is one: known finding D35)
             continue
         for (t, r) in ((t0, a), (t1, b), (t2, c)):
             if r.get("status") != 0 or r.get("err"):
